@@ -367,6 +367,12 @@ def val_eq(it, fr, l, r):
         return zand(conds)
     if fl == 'bytes':
         return bytes_eq(it, l, r)
+    if isinstance(l, Opaque) or isinstance(r, Opaque):
+        if isinstance(l, Opaque) and isinstance(r, Opaque) and l.what == 'payload' and r.what == 'payload':
+            return z3.And(z3.BoolVal(l.pytype is r.pytype), l.pid == r.pid)
+        if (isinstance(l, Opaque) and l.what == 'payload') or (isinstance(r, Opaque) and r.what == 'payload'):
+            o, x = (l, r) if isinstance(l, Opaque) else (r, l)
+            return it.eng.uf('PayloadIs', [o, x], lambda p, q: z3.BoolVal(p is q))
     if fl == 'dict':
         return dict_eq(it, fr, l, r)
     if fl == 'NoneType':
